@@ -4,9 +4,37 @@ the qgraph builders are stand-ins, the selection loops are interpreted."""
 from .pe import Mock
 
 
+# classes a layer class of that name derives from (the library's own class
+# statements: QConv2D(Conv2D), QDepthwiseConv2D(DepthwiseConv2D), ...)
+BASES = {
+    "QConv2D": ("Conv2D",), "QDepthwiseConv2D": ("DepthwiseConv2D",),
+    "QConv1D": ("Conv1D",), "QDense": ("Dense",),
+    "QConv2DTranspose": ("Conv2DTranspose",),
+    "QSeparableConv2D": ("Layer",), "QSeparableConv1D": ("Layer",),
+    "QConv2DBatchnorm": ("QConv2D", "Conv2D"),
+    "QDepthwiseConv2DBatchnorm": ("QDepthwiseConv2D", "DepthwiseConv2D"),
+    "QBatchNormalization": ("BatchNormalization",),
+}
+
+
 def layer(cls, name):
   return Mock(name, {"name": name,
+                     "__classes__": {cls, "Layer"} | set(BASES.get(cls, ())),
                      "__class__": Mock("class", {"__name__": cls})})
+
+
+def probe_chain(classes, bn="BatchNormalization"):
+  """probe_1 -> bn -> probe_2 -> bn -> ... -> sink: every probe layer's sole
+  consumer is a batch normalisation.  Same return value as `harness`."""
+  G = {}
+  nid = 1
+  for c in classes:
+    G[nid] = (layer(c, "probe_" + c), [nid + 1])
+    G[nid + 1] = (layer(bn, "bn_after_" + c), [nid + 2])
+    nid += 2
+  G[nid - 1] = (G[nid - 1][0], [-2])
+  G[-2] = (None, [])
+  return _graph_of(G)
 
 
 def harness(conv, dw, bn, dense="Dense"):
@@ -31,6 +59,10 @@ def harness(conv, dw, bn, dense="Dense"):
       14: (layer("Add", "add2"), [-2]),
       -2: (None, []),
   }
+  return _graph_of(G)
+
+
+def _graph_of(G):
   preds = {k: [u for u, (_, ss) in G.items() if k in ss] for k in G}
   removed = []
   sort_calls = []
